@@ -139,6 +139,7 @@ type Result struct {
 	Langs       map[string][]LangPath     `json:"langs,omitempty"`
 	PathWitnesses []*Witness              `json:"path_witnesses,omitempty"`
 	AssertScripts []AssertScript          `json:"assert_scripts,omitempty"`
+	ObservedWitness map[string][]*Witness `json:"observed_witness,omitempty"` // group -> concrete-input witnesses (native confirmation of digest differences)
 }
 
 type AssertScript struct {
@@ -814,6 +815,18 @@ func (st *pstate) witness() *Witness {
 		if d.Kind == DSchedule {
 			w.Schedule = append(w.Schedule, d.Val)
 		}
+	}
+	return w
+}
+
+// concreteWitness returns the witness of the path if every input so far is concrete.
+func (st *pstate) concreteWitness() *Witness {
+	w := &Witness{Harness: st.ex.Cfg.Harness, Params: st.ex.Cfg.Params}
+	for _, in := range st.inputs {
+		if !in.isConc {
+			return nil
+		}
+		w.Inputs = append(w.Inputs, in.conc)
 	}
 	return w
 }
